@@ -11,6 +11,12 @@
    interleaving of the writers' storage-level steps.  Sequence allocation is the abstract allocator
    "fresh = last + 1" (the batching / release logic of the real allocator is C07's model).
 
+   The callback's decision is the function [plan_of] (parent / leaf check, IsIllegalConflict, RevTree.addRevision's
+   "already contains" and generation checks).  The stored document carries the tree, the sequence, the unused list
+   and the current revision (winningRevision of the new tree).  Ghost data, read by no step: what an attempt planned
+   ([p_added], [p_att], [p_match]) and the list of commits with who made them and what they added -- the
+   linearizability theorems (WriteLoopLinear.v) are stated over it.
+
    [fixed] selects between the code before the repair of DESIGN section 6 items 1-2 (false) and after (true):
      item 1: a failing attempt forgot the unused sequences accumulated by earlier attempts;
      item 2: a sequence reserved by assignSequence was forgotten when a later step of the same attempt failed. *)
@@ -85,11 +91,22 @@ Fixpoint chain (parent : option revid) (revs : list revid) (deleted : bool) : li
   | [x] => [{| r_id := x; r_parent := parent; r_deleted := deleted |}]
   | x :: r => {| r_id := x; r_parent := parent; r_deleted := false |} :: chain (Some x) r deleted
   end.
+(* RevTree.addRevision, called once per new revision (oldest first): a revision whose generation is not above
+   its parent's is refused with an error (CBG-5713) -- after the conflict check, before anything is stored.  The
+   other refusal of addRevision ("already contains") cannot fire first for a pushed history: the new revisions are
+   unknown to the tree, and a repetition inside the history breaks the strictly increasing generations earlier. *)
+Fixpoint gens_ok (parent : option revid) (news : list revid) : bool :=
+  match news with
+  | [] => true
+  | x :: r => match parent with Some p => fst p <? fst x | None => true end && gens_ok (Some x) r
+  end.
+
 Definition push_check (ac : bool) (t : tree) (hist : list revid) (deleted : bool) : pcheck :=
   let '(newrevs, parent) := split_known t hist [] in
   match newrevs with
   | [] => PCancel
-  | _ => if illegal_conflict ac t parent deleted hist then PConflict else PAdd (chain parent newrevs deleted)
+  | _ => if illegal_conflict ac t parent deleted hist then PConflict
+         else if gens_ok parent newrevs then PAdd (chain parent newrevs deleted) else PFailAdd
   end.
 
 (* ---------- writers ---------- *)
@@ -103,18 +120,26 @@ Record wop := { w_tag : N; w_parent : option revid; w_deleted : bool;
 
 Inductive outcome := OAck (r : revid) (s : N) | OConflict | OForbidden | OFailed | OCancel | OUnsupported.
 
-Record docstate := { d_cas : N; d_seq : N; d_unused : list N; d_tree : tree }.
+Record docstate := { d_cas : N; d_seq : N; d_unused : list N; d_tree : tree;
+                     d_cur : option revid (* the stored current revision (SyncData.RevTreeID), set by
+                                             updateWinningRevAndSetDocFlags from winningRevision of the new tree *) }.
 Record prepared := { p_cas : N; p_doc : docstate; p_rev : revid;
                      p_delbody : bool;  (* the snapshot was live and the new current revision is a tombstone: the storage
                                            layer is asked to delete the body *)
-                     p_resurrect : bool (* the snapshot was a tombstone and the new current revision is live: the storage
-                                           layer writes it with insert semantics, WITHOUT the compare-and-swap *) }.
+                     p_resurrect : bool; (* the snapshot was a tombstone and the new current revision is live: the storage
+                                           layer writes it with insert semantics, WITHOUT the compare-and-swap *)
+                     (* ghost (not read by any step): what this attempt's callback decided and in which writer-local state *)
+                     p_added : list revinfo; p_att : nat; p_match : option revid }.
 Record writer := { w_op : wop; w_attempt : nat;
                    w_matchrev : option revid; (* db.Put keeps the parent it picked for a request without _rev across CAS retries *)
                    w_docseq : N; w_unusedseqs : list N; w_prep : option prepared; w_out : option outcome }.
 
 Record commit := { c_rev : revid; c_parent : option revid; c_seq : N; c_unused : list N; c_prevseq : N;
-                   c_put : bool (* made by a REST Put (as opposed to a pushed revision) *) }.
+                   c_put : bool; (* made by a REST Put (as opposed to a pushed revision) *)
+                   (* ghost: who committed, in which writer-local state (attempt number, remembered parent) the
+                      successful attempt ran, the revisions it added (oldest first) and the current revision it stored *)
+                   c_widx : nat; c_op : wop; c_attempt : nat; c_matchrev : option revid;
+                   c_added : list revinfo; c_cur : option revid }.
 
 Record world := { st : docstate; last : N; released : list N; ws : list writer; commits : list commit }.
 
@@ -127,7 +152,7 @@ Fixpoint dig_lookup (tab : digtab) (k : digkey) : option N :=
   | (k', d) :: r => if digkey_eqb k k' then Some d else dig_lookup r k
   end.
 
-Definition init_doc : docstate := {| d_cas := 0; d_seq := 0; d_unused := []; d_tree := [] |}.
+Definition init_doc : docstate := {| d_cas := 0; d_seq := 0; d_unused := []; d_tree := []; d_cur := None |}.
 Definition new_writer (o : wop) : writer :=
   {| w_op := o; w_attempt := 0; w_matchrev := None; w_docseq := 0; w_unusedseqs := []; w_prep := None; w_out := None |}.
 Definition init_world (ops : list wop) : world :=
@@ -163,6 +188,39 @@ Definition gen_of (p : option revid) : N := match p with Some r => fst r | None 
 Definition is_tombstone (d : docstate) : bool :=
   match winner (d_tree d) with Some w => r_deleted w | None => false end.
 
+(* a Put without _rev that once found a tombstoned current revision keeps it as its parent on retries *)
+Definition parent_eff (o : wop) (matchrev : option revid) : option revid :=
+  match w_parent o with Some p => Some p | None => matchrev end.
+
+(* what the update callback of writer [o] -- at its attempt number [attempt], remembering [matchrev] -- decides on
+   the tree [t] (None: the harness supplied no digest for this (writer, parent), the case is not comparable) *)
+Definition plan_of (allow_conflicts : bool) (tab : digtab) (o : wop) (attempt : nat) (matchrev : option revid)
+                   (t : tree) : option pcheck :=
+  match w_push o with
+  | [] => match put_check allow_conflicts t (parent_eff o matchrev) (w_deleted o) with
+          | None => Some PConflict
+          | Some par => match dig_lookup tab (dig_tag o attempt, par) with
+                        | None => None
+                        | Some dg =>
+                            (* RevTree.addRevision refuses a revision id the tree already contains *)
+                            if has_rev t (gen_of par + 1, dg) then Some PFailAdd
+                            else Some (PAdd [{| r_id := (gen_of par + 1, dg); r_parent := par; r_deleted := w_deleted o |}])
+                        end
+          end
+  | hist => Some (push_check allow_conflicts t hist (w_deleted o))
+  end.
+
+(* the writer after its acknowledged write, and the ghost record of that write *)
+Definition acked_writer (w : writer) (p : prepared) : writer :=
+  {| w_op := w_op w; w_attempt := w_attempt w; w_matchrev := w_matchrev w; w_docseq := 0; w_unusedseqs := []; w_prep := None;
+     w_out := Some (OAck (p_rev p) (d_seq (p_doc p))) |}.
+Definition commit_of (i : nat) (w : writer) (p : prepared) (prevseq : N) : commit :=
+  {| c_rev := p_rev p; c_parent := rev_parent_of (p_doc p) (p_rev p);
+     c_seq := d_seq (p_doc p); c_unused := d_unused (p_doc p); c_prevseq := prevseq;
+     c_put := match w_push (w_op w) with [] => true | _ => false end;
+     c_widx := i; c_op := w_op w; c_attempt := p_att p; c_matchrev := p_match p;
+     c_added := p_added p; c_cur := d_cur (p_doc p) |}.
+
 Section Step.
   Variable fixed : bool.
   (* [true]: faithful to the storage layer -- resurrecting a tombstone (WriteResurrectionWithXattrs) is not
@@ -179,26 +237,11 @@ Section Step.
       {| st := st s; last := lst; released := released s ++ rel; ws := set_nth i w' (ws s); commits := commits s |} in
     (* unused sequences as the caller still knows them after a failing attempt *)
     let kept := if fixed then w_unusedseqs w else [] in
-    (* a Put without _rev that once found a tombstoned current revision keeps it as its parent on retries *)
-    let parent_eff := match w_parent o with Some p => Some p | None => w_matchrev w end in
-    let match' := match w_push o, w_parent o, put_check allow_conflicts (d_tree snap) parent_eff (w_deleted o) with
+    let match' := match w_push o, w_parent o, put_check allow_conflicts (d_tree snap) (parent_eff o (w_matchrev w)) (w_deleted o) with
                   | [], None, Some (Some p) => Some p
                   | _, _, _ => w_matchrev w
                   end in
-    let plan : option pcheck :=
-      match w_push o with
-      | [] => match put_check allow_conflicts (d_tree snap) parent_eff (w_deleted o) with
-              | None => Some PConflict
-              | Some par => match dig_lookup tab (dig_tag o (w_attempt w), par) with
-                            | None => None
-                            | Some dg =>
-                                (* RevTree.addRevision refuses a revision id the tree already contains *)
-                                if has_rev (d_tree snap) (gen_of par + 1, dg) then Some PFailAdd
-                                else Some (PAdd [{| r_id := (gen_of par + 1, dg); r_parent := par; r_deleted := w_deleted o |}])
-                            end
-              end
-      | hist => Some (push_check allow_conflicts (d_tree snap) hist (w_deleted o))
-      end in
+    let plan : option pcheck := plan_of allow_conflicts tab o (w_attempt w) (w_matchrev w) (d_tree snap) in
     match plan with
     | None => let '(w', rel) := finish_failed w (w_docseq w) kept OUnsupported in upd w' rel (last s)
     | Some PConflict => let '(w', rel) := finish_failed w (w_docseq w) kept OConflict in upd w' rel (last s)
@@ -220,11 +263,13 @@ Section Step.
                                   else finish_failed w (w_docseq w) [] OFailed in
                 upd w' rel last'
               else
-                let nd := {| d_cas := d_cas snap + 1; d_seq := docseq'; d_unused := unused'; d_tree := t' |} in
+                let nd := {| d_cas := d_cas snap + 1; d_seq := docseq'; d_unused := unused'; d_tree := t';
+                             d_cur := option_map r_id (winner t') |} in
                 upd {| w_op := o; w_attempt := S (w_attempt w); w_matchrev := match'; w_docseq := docseq'; w_unusedseqs := unused';
                        w_prep := Some {| p_cas := d_cas snap; p_doc := nd; p_rev := newid;
                                          p_delbody := negb (is_tombstone snap) && negb (Nat.eqb (length (d_tree snap)) 0) && is_tombstone nd;
-                                         p_resurrect := is_tombstone snap && negb (is_tombstone nd) |}; w_out := None |} [] last'
+                                         p_resurrect := is_tombstone snap && negb (is_tombstone nd);
+                                         p_added := newrevs; p_att := w_attempt w; p_match := w_matchrev w |}; w_out := None |} [] last'
     end.
 
   Definition write_gate (s : world) (p : prepared) : bool :=
@@ -243,13 +288,11 @@ Section Step.
         {| st := st s; last := last s; released := released s ++ rel; ws := set_nth i w' (ws s); commits := commits s |}
       else
         {| st := if p_cas p =? d_cas (st s) then p_doc p
-                 else {| d_cas := d_cas (st s) + 1; d_seq := d_seq (p_doc p); d_unused := d_unused (p_doc p); d_tree := d_tree (p_doc p) |};
+                 else {| d_cas := d_cas (st s) + 1; d_seq := d_seq (p_doc p); d_unused := d_unused (p_doc p); d_tree := d_tree (p_doc p);
+                         d_cur := d_cur (p_doc p) |};
            last := last s; released := released s;
-           ws := set_nth i {| w_op := w_op w; w_attempt := w_attempt w; w_matchrev := w_matchrev w; w_docseq := 0; w_unusedseqs := []; w_prep := None;
-                              w_out := Some (OAck (p_rev p) (d_seq (p_doc p))) |} (ws s);
-           commits := commits s ++ [{| c_rev := p_rev p; c_parent := rev_parent_of (p_doc p) (p_rev p);
-                                       c_seq := d_seq (p_doc p); c_unused := d_unused (p_doc p); c_prevseq := d_seq (st s);
-                                       c_put := match w_push (w_op w) with [] => true | _ => false end |}] |}
+           ws := set_nth i (acked_writer w p) (ws s);
+           commits := commits s ++ [commit_of i w p (d_seq (st s))] |}
     else if tomb_quirk s p then
       let '(w', rel) := finish_failed w (w_docseq w) (w_unusedseqs w) OFailed in
       {| st := st s; last := last s; released := released s ++ rel; ws := set_nth i w' (ws s); commits := commits s |}
